@@ -190,8 +190,11 @@ func cmdCheck(args []string) int {
 	verbose := fs.Bool("v", false, "")
 	fs.Parse(args)
 	t0 := time.Now()
+	// Deductive checks are deterministic: VERIF_SEED is deliberately NOT fed to the solvers. A proof found with one
+	// solver seed must be found again on every run (specs/hints.json records the variant), so the seed is fixed.
+	// GOVC_SOLVER_SEED exists for stability experiments only.
 	seed := 0
-	if s := os.Getenv("VERIF_SEED"); s != "" {
+	if s := os.Getenv("GOVC_SOLVER_SEED"); s != "" {
 		seed, _ = strconv.Atoi(s)
 	}
 	if *evOut == "" {
